@@ -23,8 +23,8 @@ func signatureRedirectVerificationNecessary(
 		spMeta := spMetadataF()
 		idpMeta := idpMetadataF()
 
-		return ((spMeta == nil || spMeta.SPSSODescriptor == nil || spMeta.SPSSODescriptor.AuthnRequestsSigned == "true") ||
-			(idpMeta == nil || idpMeta.WantAuthnRequestsSigned == "true") ||
+		return ((spMeta == nil || spMeta.SPSSODescriptor == nil || xsBooleanTrue(spMeta.SPSSODescriptor.AuthnRequestsSigned)) ||
+			(idpMeta == nil || xsBooleanTrue(idpMeta.WantAuthnRequestsSigned)) ||
 			signatureF() != "") &&
 			protocolBinding() == RedirectBinding
 	}
